@@ -261,11 +261,10 @@ impl CacheControl {
     /// longer than any with a defined lifetime.
     #[must_use]
     pub fn as_freshness(&self) -> Option<u32> {
-        if let (true, Some(max_age)) = (self.store(), self.max_age) {
-            Some(max_age)
-        } else {
-            None
-        }
+        // Not dependent on `Self::store`: when a response which says `no-store, max-age=30` is
+        // stored anyway (`no-store` from a `cache-control` header is for the client), it's for 30s,
+        // not for as long as possible.
+        self.max_age
     }
 }
 
